@@ -951,17 +951,17 @@ def cb_groups(nb, tier="quick"):
     for l in ("pos", "edge", "lowest"):
         gs.append(Group(name="basin.connect.visit.%s" % l, units=base + [make_cb_switch(nb, "frame") if l == "edge" else sw, make_cb_visit(nb, l)], extra_c=[MODEL_H], defines=defs,
                         harness=_hcb("cb_visit", "cb_visit(%s, nondet_size_t(), nondet_double(), nn)" % CB_ARGS, nb), entry="h_cb_visit",
-                        enforce="cb_visit", replace=["cb_switch"], backend="cvc5", timeout=3600, min_obligations=50, tier=("quick" if l == "lowest" else "thorough"),
+                        enforce="cb_visit", replace=["cb_switch"], backend="cvc5", timeout=1800, min_obligations=50, tier="quick",
                         clause="connect_basins, one adjacent node pair, lemma `%s`: %s" % (l, what[l])))
     for l in ("pos", "edge"):
         gs.append(Group(name="basin.connect.node.%s" % l, units=base + [make_cb_visit(nb, l), make_cb_node(nb, l)], extra_c=[MODEL_H], defines=defs,
                         harness=_hcb("cb_node", "cb_node(%s, nondet_size_t())" % CB_ARGS, nb), entry="h_cb_node", enforce="cb_node",
-                        replace=["cb_visit", "grid_neighbors"], loop_contracts=True, backend="cvc5", timeout=5400, min_obligations=50, tier="thorough",
+                        replace=["cb_visit", "grid_neighbors"], loop_contracts=True, backend="cvc5", timeout=1800, min_obligations=50, tier="quick",
                         clause="connect_basins, one node of the bottom-up order (neighbour scan closed by a loop contract), lemma `%s`: %s" % (l, what[l])))
         gs.append(Group(name="basin.connect.loop.%s" % l, units=base + [make_cb_node(nb, l), make_cb_outer(nb, l)], extra_c=[MODEL_H], defines=defs,
                         harness=_hcb("connect_basins", "connect_basins(%s)" % CB_ARGS, nb), entry="h_connect_basins", enforce="connect_basins",
-                        replace=["cb_node", "fsl_vsz_resize_b", "fsl_vsz_fill_b"], loop_contracts=True, backend="cvc5", timeout=3600 if l == "edge" else 1500,
-                        min_obligations=50, tier="thorough" if l == "edge" else tier,
+                        replace=["cb_node", "fsl_vsz_resize_b", "fsl_vsz_fill_b"], loop_contracts=True, backend="cvc5", timeout=1500,
+                        min_obligations=50, tier=tier,
                         clause="connect_basins on ARBITRARY pre-state of m_root / m_edges / m_edge_positions(_tmp) (per-call reset, C09), lemma `%s`: %s"
                                % (l, what[l])))
     return gs
@@ -1030,7 +1030,10 @@ CB_ROOT_GROUPS = [
 cb_make_edge.pre = cb_pre(2)   # ghost declarations, neighbour contract and predicates precede every connect_basins unit
 CB_GROUPS = cb_groups(2)
 
-GROUPS = {"C15": [G_UF_FIND, G_UF_MERGE] + G_UF_LINK + [G_UF_RESIZE, G_UF_CLEAR, G_UF_PUSH, G_KR_CMP, G_KR_STEP, G_KR_TREE] + G_KR_LOOP + CB_ROOT_GROUPS + CB_GROUPS,
+# G_KR_LOOP (loop-level Kruskal clauses with the full step contract) do not finish within an hour on cvc5 (measured again in session 4 with the
+# is_fresh split): kept in the module for development (EXPERIMENTAL), NOT registered, nothing is claimed from them
+EXPERIMENTAL = G_KR_LOOP
+GROUPS = {"C15": [G_UF_FIND, G_UF_MERGE] + G_UF_LINK + [G_UF_RESIZE, G_UF_CLEAR, G_UF_PUSH, G_KR_CMP, G_KR_STEP, G_KR_TREE] + CB_ROOT_GROUPS + CB_GROUPS,
           # the root of the basin tree and the per-call resets decide whether every depression is re-routed (C01) and filled to its spill (C02)
           "C01": [G_SB_STEP, G_SB_LOOP] + CB_ROOT_GROUPS + [g for g in CB_GROUPS if g.tier == "quick"],
           "C02": CB_ROOT_GROUPS + [g for g in CB_GROUPS if g.tier == "quick"]}
@@ -1057,7 +1060,7 @@ for _gs in GROUPS.values():
             _g.harness = (_g.harness[:_i] + "    { _Bool never_ = nondet_bool(); __CPROVER_assume(!never_); if (never_) { " + _calls +
                           " } } /* keep-alive, unreachable */\n" + _g.harness[_i:])
 
-GROUPS["C09"] = [G_KR_TREE] + G_KR_LOOP + [g for g in CB_ROOT_GROUPS if g.name.endswith(".loop")] + [g for g in CB_GROUPS if ".loop." in g.name] + [G_UF_CLEAR, G_UF_RESIZE]
+GROUPS["C09"] = [G_KR_TREE] + [g for g in CB_ROOT_GROUPS if g.name.endswith(".loop")] + [g for g in CB_GROUPS if ".loop." in g.name] + [G_UF_CLEAR, G_UF_RESIZE]
 
 PROPS = {
     "C15": dict(
@@ -1106,7 +1109,7 @@ PROPS = {
             "clauses bounded); spanning-ness and |tree| == basins-1 are reachability / counting statements",
             "Kruskal == Boruvka weight; tree spans all basins reachable from the root",
             "tree entries are in non-decreasing weight order (needs a slot -> position ghost map; not done)",
-            "loop-level Kruskal clauses with the full step contract (groups basin.kruskal.loop.tree / .classes, thorough tier: `after the scan the "
+            "loop-level Kruskal clauses with the full step contract (groups basin.kruskal.loop.tree / .classes, not registered: `after the scan the "
             "endpoints of every edge are in one class`, union-find re-initialised by resize+clear) did not terminate within 25-40 min on cvc5 while this "
             "module was built; the step-level clause (basin.kruskal.step) and the tree/reset slice (basin.kruskal.tree) are decided",
         ],
